@@ -60,6 +60,64 @@ PROPS = {
     },
 }
 
+PROPS.update({
+    "C03": {
+        "parts": [ktmc("C03")],
+        "rule": "every k in 1..=10 with all 4^k codes: column count = closed form, every canonical code maps to its "
+                "rank in the sorted model index and the inverse map returns it; header through get_header (k<=8) and "
+                "through both writer paths x 3 delimiters (k<=6). Non-trivial = each canonical code / header checked.",
+        "assumptions": COMMON_ASSUME,
+    },
+    "C04": {
+        "parts": [ktmc("C04")],
+        "rule": "per-record routine on every string over {A,C,G,T,N} up to the stated length x k 1..=4, mixed-case/U "
+                "strings x k 1..=3 and structured inputs for k 5..=8, raw and normalised, each with its reverse "
+                "complement / lower-case / U-for-T variant; the file API on all short strings as one FASTA through "
+                "the mmap writer (3 and 16 threads), the batch writer (default and 7-base limit) and counts mode. "
+                "Oracle: integer counts per canonical rank and exact ratio c/t within 5e-7. Non-trivial = record "
+                "with at least one window position.",
+        "assumptions": COMMON_ASSUME + ["rayon's schedule inside par_iter().collect() of the batch writer is not controlled (trusted ordered collect)"],
+    },
+    "C06": {
+        "parts": [ktmc("C06")],
+        "rule": "every list of 0..=3 (thorough 4) records from 8 variants (2 header shapes x base lengths 0,1,2,5) "
+                "serialised 9 ways (FASTA one-line / wrapped 1,2,3 / CRLF / no final newline; FASTQ / CRLF / no final "
+                "newline) in plain, single-member gzip (compressed and stored), gzip with a member boundary at every "
+                "record boundary, with an empty member, and at every byte offset of the first 40 bytes; long records "
+                "at buffer edges (8 KiB, 32 KiB, 64 KiB, 70 000); each file read through the iterator and seq_stats "
+                "and compared with the generating list. Non-trivial = file with at least one record.",
+        "assumptions": COMMON_ASSUME + ["gzip members are produced by flate2 (compressed level 6 and stored level 0)"],
+    },
+    "C08": {
+        "parts": [ktmc("C08")],
+        "rule": "per-record histogram routine on every string over {A,C,G,T,N} up to the stated length x k 1..=3 x 6 "
+                "bin shapes with synthetic tables (multiplicities at the bin edges, 10^6, u32::MAX, absent); the "
+                "whole pipeline on every list of <= 2 (thorough 3) short records x k x bin shapes x norm/raw x "
+                "(threads, memory) settings with the same or a different counting input; high-multiplicity and "
+                "200-record inputs; compute_coverages on harness-written tables. Oracle: model histogram, one row "
+                "per record in order. Non-trivial = record with at least one window position.",
+        "assumptions": COMMON_ASSUME + ["worker threads of the counting step run free in this check (their interleavings are decided in C07)",
+                                        "'flush every few records' cannot be reached: the batch threshold is a whole number of GiB"],
+    },
+    "C11": {
+        "parts": [ktmc("C11")],
+        "rule": "every string over {A,C,G,T} up to the stated length and every mixed-case/U string up to length 5-6 x "
+                "7 square sizes, bit-exact against an exact dyadic-rational model; every string with a bad byte over "
+                "{A,C,G,T,N,x} and every byte value outside the ten letters in short contexts must be refused; long "
+                "periodic inputs for prefix determinism and sub-square containment; the file path on 7 record sets "
+                "x threads 1..=16 x 3 batch limits. Non-trivial = non-empty input.",
+        "assumptions": COMMON_ASSUME + ["rayon's schedule inside the batch par_iter is not controlled (trusted ordered collect)"],
+    },
+    "C12": {
+        "parts": [ktmc("C12")],
+        "rule": "k 1..=7 x 5 square sizes x norm/raw: every string over {A,C,G,T,N} up to the stated length (k<=3) or "
+                "a structured family (k 4..=7): one triple per canonical column in rank order, coordinates bit-exact "
+                "= chaos-game end point of the column's k-mer text, frequency identical to the oligo vector and to "
+                "the model; file path x threads x batch limits. Non-trivial = record at least k long.",
+        "assumptions": COMMON_ASSUME + ["rayon's schedule inside the batch par_iter is not controlled (trusted ordered collect)"],
+    },
+})
+
 
 def replay_py(body, path):
     raise fe.Machinery("no python replay runner for %s" % body.get("runner"))
